@@ -20,7 +20,8 @@ PROPS = {
                 "(0, -0, subnormal, +-max, +-Inf, random bit patterns; NaN excluded) with discrete scores. Non-trivial = the "
                 "pair/triple involves at least one mate score (discrete) or a mate score together with a heuristic value "
                 "(mixed); distinct = distinct score tuples. "
-                "Being mated in 128 plies (int8 -128, no counterpart on the mating side) is part of the domain of the order, transitivity, increment (-127 -> -128) and Max/Min laws; only the negation law is not asked of it.",
+                "Being mated in 128 plies (int8 -128, no counterpart on the mating side) is part of the domain of the order, transitivity, increment (-127 -> -128) and Max/Min laws; only the negation law is not asked of it. "
+                "Law 0: HeuristicScore(f) is the heuristic value f for every float. A third of the mixed triples apply a chain of 1-4 operations (increment, decrement, negate) to the first score before the laws are judged.",
         "assumptions": COMMON_ASSUMPTIONS + [
             "mate distance 0 and NaN evaluations are outside the domain; the increment law is judged for |k| <= 126 (int8 distance)"],
         "level_text": "Exploration with an exhaustive core: every pair of the 256 discrete scores and 60k generated float/discrete "
@@ -68,7 +69,8 @@ PROPS = {
                 "before. C02/synth: every legal move of synthetic positions. Non-trivial = distinct (position, move) where the move is "
                 "a castle / e.p. / promotion / double step, clears an e.p. target or changes castling rights; plus sequences >= 10 plies. "
                 "evaluations = (position, move) pairs judged. "
-                "C02/coldstart: at the top of every shard process, before anything else has used the repository's code, 12 goroutines released together make the first use of the board package (positions, legal moves, successors, checks, a Zobrist table of a fresh seed, boards) on 8 fixed slider-heavy positions; answers are judged against the oracle. One trial per shard; no random choice (the schedule is the operating system's). C02 reports accepted/refused successors. The coordinate text of every legal move must pick out exactly that generated move (Equals both ways round).",
+                "C02/coldstart: at the top of every shard process, before anything else has used the repository's code, 12 goroutines released together make the first use of the board package (positions, legal moves, successors, checks, a Zobrist table of a fresh seed, boards) on 8 fixed slider-heavy positions; answers are judged against the oracle. One trial per shard; no random choice (the schedule is the operating system's). C02 reports accepted/refused successors. The coordinate text of every legal move must pick out exactly that generated move (Equals both ways round). "
+                "The text of a legal move with its promotion suffix altered (added, dropped or changed) must equal no generated move.",
         "assumptions": COMMON_ASSUMPTIONS + ["e.p. target is set after every double step (the convention the repository documents and C05 uses)"],
         "level_text": "Exploration: hundreds of thousands of (position, move) pairs per quick run against the oracle successor, with "
                       "cross-view consistency and the full attack relation re-checked on incrementally derived positions so that a "
@@ -91,7 +93,8 @@ PROPS = {
                 "recoloured/retyped/moved) must hash differently. Non-trivial = distinct cases containing a castle, e.p., promotion, "
                 "capture-promotion or rights change (walk); every transposition pair and separation pair. evaluations = cases. "
                 "A third of the walks fork the board and operate on fork and origin alternately (both are judged after every operation: they are independent). C07/birthday: every distinct position met in 72k generated games (plus the neighbours of the final positions), hashed from scratch with one fixed table - about 140k positions per shard, capped at 400k: two different positions with one hash are reported as a C07/separation case (4e-9 for honest 64-bit keys at the cap; expected many times over for keys of 32 bits or fewer). "
-                "C07/coldstart: at the top of every shard process, before anything else has used the repository's code, 12 goroutines released together make the first use of the board package (positions, legal moves, successors, checks, a Zobrist table of a fresh seed, boards) on 8 fixed slider-heavy positions; answers are judged against the oracle. One trial per shard; no random choice (the schedule is the operating system's). C07 reports hash = hash from scratch and equal hashes across the goroutines.",
+                "C07/coldstart: at the top of every shard process, before anything else has used the repository's code, 12 goroutines released together make the first use of the board package (positions, legal moves, successors, checks, a Zobrist table of a fresh seed, boards) on 8 fixed slider-heavy positions; answers are judged against the oracle. One trial per shard; no random choice (the schedule is the operating system's). C07 reports hash = hash from scratch and equal hashes across the goroutines. "
+                "C07/accepted: FENs with castling rights nobody can have (no king or rook at home); along the engine's own legal moves and take-backs the maintained hash must equal the hash from scratch of the position the board reports (no rules model involved). Odd en-passant targets are outside the domain (see DESIGN).",
         "assumptions": COMMON_ASSUMPTIONS + ["hash inequality is judged up to the 2^-64 coincidence the property allows"],
         "level_text": "Exploration: ~16k push/pop histories x (up to 70 ops) per quick run over several table seeds compare the "
                       "incremental hash with the from-scratch hash after every operation; path independence and separation are "
@@ -399,7 +402,8 @@ PROPS = {
                 "Engine.Board() observable are identical before and after an analysis run to completion and after a halted "
                 "unlimited analysis. Non-trivial = distinct cases with depth >= 2 and a root with history (deterministic), depth >= 2 "
                 "(engine). evaluations = cases (each 6+ searches). "
-                "C18/deterministic repeats a search restricted to a line (search.Context.Ponder) with the very same context: equal results, context unchanged. C18/otherengines: the same engine alone vs. with another engine (Hash 1-256 MB) analysing before or alongside.",
+                "C18/deterministic repeats a search restricted to a line (search.Context.Ponder) with the very same context: equal results, context unchanged. C18/otherengines: the same engine alone vs. with another engine (Hash 1-256 MB) analysing before or alongside. "
+                "C18/engine with noise: a new game set up (Reset + moves) while an analysis is still running must then analyse exactly like a fresh engine with the same seed.",
         "assumptions": COMMON_ASSUMPTIONS + ["searches are repeated on fresh forks of the same game state, as the engine does",
                                              "with noise on, only the last report of a finished analysis is compared (the PV channel keeps the latest report only)"],
         "level_text": "Exploration: ~4k search cases x 6-9 searches and 2.5k engine cases per quick run; metamorphic relations "
@@ -557,7 +561,8 @@ PROPS = {
                 "transposing lines) offers the line move and only legal moves at every position of every line, and refuses a line "
                 "whose last move is illegal. Non-trivial = distinct boards with bare king / in check / castling or promotion "
                 "available / no legal move / a history; book cases with at least one position. evaluations = cases. "
-                "C20/books: lines ending in an en-passant capture; every book position with an en-passant target is also looked up as its twin without the target - replies must be legal where they are offered. C20/engines evaluates QueenStar positions (a queen with open lines ending on enemy men) and many-move boards.",
+                "C20/books: lines ending in an en-passant capture; every book position with an en-passant target is also looked up as its twin without the target - replies must be legal where they are offered. C20/engines evaluates QueenStar positions (a queen with open lines ending on enemy men) and many-move boards. "
+                "C20/parallel: 2-8 goroutines evaluate different games with the four evaluators 40 times each at the same time; every value must equal the value computed alone. A book returned together with the refusal of a bad line must not offer an illegal reply.",
         "assumptions": COMMON_ASSUMPTIONS + ["colour symmetry is judged with exact equality (the three evaluations are quantised)"],
         "level_text": "Exploration: ~6k boards with histories per quick run through every evaluator and filter of the three "
                       "historical engines, a metamorphic mirror relation for colour-blindness, and ~3k generated opening books.",
